@@ -608,6 +608,50 @@ def behaviour_jobs(ck, thorough, extra_shapes=()):
     return jobs
 
 
+def variant_jobs(ck, thorough):
+    """The storage / control-flow dimensions of the statement, on a fixed set of access programs:
+       (a) the routine also owns user ScratchVars with small requested slot ids ({1},{2},{3},{0,2},{1,3},{1,2,3},{0,1}) that it
+           writes before the decode and again between the extraction and the use (scratch back-end: main routine and a
+           subroutine compiled without frame pointers) — every ABI value must keep its own cell;
+       (b) the same ABI value decoded and used in an earlier basic block and again inside an If arm, accessed in a loop body,
+           used after a two-armed branch — compiled with the slot optimiser ON and OFF."""
+    rng = ck.rng
+    base = []
+    k = 0
+    for t in [("tuple", ("uint", 64), ("uint", 64)), ("tuple", "bool", "string", ("uint", 16), "bool"),
+              ("tuple", "string", ("darr", ("uint", 16)), "byte"), ("tuple", ("sarr", "bool", 3), "address", ("uint", 32))]:
+        base += tuple_jobs(t, rng, k, False, nvals=2, kinds=("tuple", "named"))
+        k += 1
+    for at in [("darr", ("uint", 16)), ("sarr", "bool", 9), ("darr", "string"), ("sarr", ("tuple", "bool", "byte"), 2), "string", ("darr", "bool")]:
+        base += [j for j in array_jobs(at, rng, k, False) if j["index"] is None]
+        k += 1
+    t = ("tuple", ("uint", 8), ("darr", ("uint", 16)), "string")
+    base += nested_jobs(t, 1, rng, k, False)
+    for t in ["string", ("uint", 64), "bool", "address"]:
+        base += get_jobs(t, rng, k, False)
+    slotsets = [[1], [2], [3], [0, 2], [1, 3], [1, 2, 3], [0, 1]]
+    flows = ["reuse-if", "loop", "after-branch"]
+    out = []
+    n = 0
+    for j in base:
+        runs = [r_ for r_ in j["runs"] if r_["tag"] == "in"][:6] + [r_ for r_ in j["runs"] if r_["tag"] == "oob"][:4] + [r_ for r_ in j["runs"] if r_["tag"] == "bad"][:1]
+        j = dict(j, runs=runs)
+        sets = slotsets if thorough else [slotsets[(n + d) % len(slotsets)] for d in (0, 3, 5)]
+        for ss in sets:
+            for be in ("scratch", "subscratch"):
+                out.append(dict(j, user_slots=ss, backend=be, ver=5 + n % 6, opt=[None, False][(n // 2) % 2]))
+                n += 1
+        for flow in flows:
+            for opt in (True, False):
+                bes = ("scratch", "subscratch", "frame") if thorough else (("scratch", "subscratch", "frame")[n % 3], "scratch")
+                for be in dict.fromkeys(bes):
+                    ver = (8 + n % 3) if be == "frame" else (5 + n % 6)
+                    out.append(dict(j, flow=flow, opt=opt, backend=be, ver=ver))
+                    n += 1
+    ck.coverage["variant_jobs"] = {"base_programs": len(base), "user_slot_sets": slotsets, "flows": flows, "jobs": len(out)}
+    return out
+
+
 # ---------------------------------------------------------------------------------------------
 # shrinking a failing run
 # ---------------------------------------------------------------------------------------------
@@ -721,6 +765,7 @@ def main(argv):
 
     # ---------------- 3. behaviour on the AVM (oracle + executed correspondence) ----------------
     jobs = behaviour_jobs(ck, thorough, extra_shapes=bad_shapes if (mism or not ck.proof_ok) else ())
+    jobs += variant_jobs(ck, thorough)
     t_gen = time.time()
     results = run_jobs(jobs)
     t_run = time.time()
@@ -733,7 +778,8 @@ def main(argv):
         agg["in_range_ok"] += r["in_ok"]
         agg["oob_failed"] += r["oob_fail"]
         agg["damaged_agree"] += r["bad_agree"]
-        key = "%s/v%d/%s" % (job["kind"], job["ver"], job["backend"])
+        key = "%s/v%d/%s%s%s" % (job["kind"], job["ver"], job["backend"], "/slots" if job.get("user_slots") else "",
+                                 ("/%s/opt=%s" % (job["flow"], job.get("opt"))) if job.get("flow") else "")
         hist[key] = hist.get(key, 0) + 1
         if r["compile"] not in (None, "ok") and not r["issues"]:
             agg["compile_errors_expected"] += 1
@@ -791,7 +837,7 @@ def main(argv):
         if reported >= 6:
             break
         fj = f.get("job") or {}
-        sig = (f["kind"], fj.get("kind"), repr(fj.get("t")), fj.get("i"), (fj.get("runs") or [{}])[0].get("tag")) if fj else (f["kind"], f["why"][:60])
+        sig = (f["kind"], fj.get("kind"), repr(fj.get("t")), fj.get("i"), (fj.get("runs") or [{}])[0].get("tag"), bool(fj.get("user_slots")), fj.get("flow")) if fj else (f["kind"], f["why"][:60])
         if sig in seen_why:
             continue
         seen_why.add(sig)
@@ -801,8 +847,11 @@ def main(argv):
             small = job_json(shrink(pt, model, j0, dict(f, run=small["runs"][0]), ck.rng))
         what = "%s" % f["why"]
         if small is not None:
-            what = "ABI %s access on %s (position %s, index %s, v%d, %s back-end): %s" % (small["kind"], AB.arc4_str(R.tj(small["t"])), small.get("i"),
-                                                                                         small.get("index") or small["runs"][0].get("idx"), small["ver"], small["backend"], f["why"])
+            what = "ABI %s access on %s (position %s, index %s, v%d, back-end %s): %s" % (small["kind"], AB.arc4_str(R.tj(small["t"])), small.get("i"),
+                                                                                         small.get("index") or small["runs"][0].get("idx"), small["ver"],
+                                                                                         small["backend"] + ("".join([", user ScratchVars with requested ids %s" % small["user_slots"] if small.get("user_slots") else "",
+                                                                                                                      ", flow %s" % small["flow"] if small.get("flow") else "",
+                                                                                                                      ", scratch_slots=%s" % small["opt"] if small.get("opt") is not None else ""])), f["why"])
         ck.violation(what, {"kind": f["kind"], "job": small, "why": f["why"], "real": f.get("real"), "model": f.get("model"), "expect": f.get("expect"), "teal": f.get("teal")})
         reported += 1
     if (mism or corr) and not sem:
